@@ -4,18 +4,21 @@
 
 package table
 
-// Reading the entry at a live offset (and stamping its last access). Its effect on the table is proved where it
-// is inlined (Table.Get); for the scan loops the same facts are ASSUMED through this contract.
+// Reading the entry at a live offset (and stamping its last access): the decoder the scans use (a copy of the one
+// in Table.Get). Key, expiry and timestamp of the result are the stored ones.
 //@ func (t *Table) get(offset uint64) storage.Entry
-//@   props C12
-//@   trusted
+//@   props C12 C11
 //@   flag clock
+//@   flag bstr_ext
 //@   flag contract_only_in Table\)\.Scan
 //@   requires #live: t.inv() && t.offsetIndex.set[offset]
 //@   ensures  #entry: result != nil && fresh(result)
+//@   ensures  #key [C11 C12] local: result.key == bstrAt(elems(t.memory), off(t.memory)+offset+1, t.memory[offset])
+//@   ensures  #ttl [C11 C12] local: result.ttl == int64(be64(t.memory, offset+1+t.memory[offset]))
+//@   ensures  #ts [C11 C12] local: result.timestamp == int64(be64(t.memory, offset+9+t.memory[offset]))
 //@   ensures  #inv_out: t.inv()
 //@   ensures  #index_kept: forall h uint64 {t.has(h)} :: t.has(h) == old(t.has(h)) && t.off(h) == old(t.off(h))
-//@   ensures  #keys_kept: forall o int {t.keyAt(o)} :: t.keyAt(o) == old(t.keyAt(o))
+//@   ensures  #keys_kept: forall o uint64 {t.keyAt(o)} :: t.offsetIndex.set[o] ==> t.keyAt(o) == old(t.keyAt(o))
 //@   modifies elems(t.memory)
 
 // One table's part of a scan. Live offsets at or after the cursor are taken in ascending order, each at most once;
